@@ -5,5 +5,6 @@ import PeptVerif.Props.C06Seq
 #print axioms Spans.sequential_eq_simultaneous_text
 #print axioms Spans.nodup_seqDigestText
 #print axioms Spans.stageShortcutFree_of_lookaround
-#print axioms Spans.named_rules_lookaround
+#print axioms Spans.named_rules_local
+#print axioms Spans.local_rule_semantics
 #print axioms Spans.sequential_ne_simultaneous_when_union_cuts_everywhere
